@@ -16,6 +16,7 @@ import (
 	"flag"
 	"fmt"
 	"io"
+	"math"
 	"math/rand"
 	"net/http"
 	"os"
@@ -183,13 +184,20 @@ var actions = map[string]func() string{
 		}
 		return "ok"
 	},
+	// a request whose parameters cannot be encoded fails; the requests of the other goroutines on the
+	// shared connection must still go through (an error path that keeps the id lock would block them)
+	"rpcbad": func() string {
+		_, e1 := conn.Request("estimatesmartfee", math.NaN())
+		_, e2 := conn.Request("x", make(chan int))
+		r3, e3 := conn.Request("getblockcount")
+		return fmt.Sprint(e1 != nil, e2 != nil, r3, e3)
+	},
 	"rpc": func() string {
 		r1, e1 := conn.Request("getblockcount")
 		r2, e2 := conn.Request("getbestblockhash")
 		return fmt.Sprint(r1, e1, r2, e2)
 	},
 }
-
 
 // ---- storms: many calls with DIFFERENT inputs from every goroutine, each result compared with the value
 // the same call gives when run alone. A cold-start action makes one call per goroutine; a storm looks for
@@ -225,7 +233,10 @@ func buildStorm() {
 		add(fmt.Sprintf("VerifySchnorr(%d)", i), func() string { return fmt.Sprint(ecc.VerifySchnorr(pubX, msg, sig)) })
 		r, sv := ecc.SignECDSA(k, msg)
 		add(fmt.Sprintf("VerifyECDSA(%d)", i), func() string { return fmt.Sprint(ecc.VerifyECDSA(pubC, msg, r, sv)) })
-		add(fmt.Sprintf("TweakPublicKey(%d)", i), func() string { q, odd, err := taproot.TweakPublicKey(pubX, msg); return fmt.Sprintf("%x %v %v", q, odd, err) })
+		add(fmt.Sprintf("TweakPublicKey(%d)", i), func() string {
+			q, odd, err := taproot.TweakPublicKey(pubX, msg)
+			return fmt.Sprintf("%x %v %v", q, odd, err)
+		})
 		add(fmt.Sprintf("DerivePublicChild(%d)", i), func() string {
 			ck, cc, err := bip32.DerivePublicChild(pubC, chain, uint32(i), 7)
 			return fmt.Sprintf("%x %x %v", ck, cc, err)
